@@ -188,6 +188,19 @@ Section Kahn.
       end
     end.
 
+  (* the outcomes of `tx.try_send(m)` as a function of the channel: receiver exists?, capacity, FIFO length,
+     a receiver blocked in recv() (only matters for capacity 0) *)
+  Inductive try_result := TryOk | TryFull | TryDisconnected.
+  Definition try_send (rx_alive : bool) (cap qlen : nat) (rx_waiting : bool) : try_result :=
+    if negb rx_alive then TryDisconnected
+    else if (qlen <? cap) || ((cap =? 0) && rx_waiting) then TryOk else TryFull.
+  (* the receiver at the head of [p] is blocked in recv() *)
+  Definition waiting (p : pipe) : bool :=
+    match p with
+    | PEnd b _ => b
+    | PCell c _ => match ns c with NRun _ [] _ => true | _ => false end
+    end.
+
   (* small-step relation of the nodes of a (sub-)pipeline; [drop] = the consumer may disappear *)
   Inductive step (drop : bool) : pipe -> pipe -> Prop :=
   | step_head a p p' : head_step drop a p = Some p' -> step drop p p'
